@@ -1,7 +1,13 @@
 """C07 — enum-level format: wraps via `_variant`, otherwise is only a default."""
+import os
+import sys
+
 from . import common as C
 from . import fmtgen as G
 from . import fmtx
+
+sys.path.insert(0, os.path.join(C.VERIF, "tools"))
+import gen_tables  # noqa: E402
 
 PRELUDE = r'''
 #![allow(dead_code, unused_variables, non_camel_case_types, unused_imports, non_snake_case)]
@@ -258,6 +264,10 @@ def run(tier):
     extra, bad, cov = [], [], {}
     try:
         inproc = C.cargo_build_inproc()
+        # the two name tables of impl/src/fmt are re-read from the source; the theorems source_default_placeholders_* /
+        # source_attribute_names_distinct are re-checked against what the code says now
+        os.makedirs(gen_tables.GEN, exist_ok=True)
+        tables = gen_tables.gen_fmt_tables()
         lean_ok, _ = C.lake_build(["Dm.Props.C07", "dmdriver"])
         n = 250 if tier == "quick" else 5000
         cases, bad = fmtx.correspond(inproc, rng, G.TRAITS + ["Debug"], n) if lean_ok else ([], [])
@@ -265,7 +275,8 @@ def run(tier):
         wrapped = sum(1 for c in enums if c["impl"] and "_variant=>" in c["impl"][0])
         checks, nen, samples = behaviour(res, inproc, rng, tier)
         ncf = rejections(res)
-        extra = [("correspondence: Display-like/Debug expander model == working-tree expanders on generated enums/structs", lean_ok and not bad)]
+        extra = [("correspondence: Display-like/Debug expander model == working-tree expanders on generated enums/structs", lean_ok and not bad),
+                 ("translator: every arm of trait_name_to_default_placeholder_literal / trait_name_to_attribute_name was read", not tables["problems"])]
         cov = {
             "evaluations": len(cases) + checks + ncf,
             "distinct_nontrivial": len({c["src"] for c in enums if c["impl"]}) + nen,
